@@ -454,7 +454,10 @@ class Exec(ExprMixin, AccessMixin, CallMixin, StmtMixin, SpecMixin, HeapMixin, O
     """Ghost variables the callee's contract declares (and does not mark const) may be changed by the call: their new
     values are whatever the callee's postconditions say."""
     from pyvc.values import VSeq
-    for g in con.ghost_:
+    named = set(con.ghost_)
+    for _, e in con.ensures_:
+      named.update(self._GHOST_RE.findall(e))
+    for g in sorted(named):
       if g in con.ghost_const or g not in st.ghost:
         continue
       v = st.ghost[g]
